@@ -81,6 +81,7 @@ type c13Scenario struct {
 	Goal     string   `json:"goal"`
 	Program  string   `json:"program"`
 	Text     string   `json:"text,omitempty"`
+	Single   bool     `json:"single_builtin,omitempty"` // the goal is one call of a built-in that acts at once; the context is done before the call
 }
 
 var c13Entries = []string{"query-first", "query-kth", "querysolution", "exec-directive", "exec-init", "exec-consult", "query-consult", "exec-termexp", "query-expand-term", "exec-include", "exec-ensure-loaded", "exec-consult-list", "exec-nested-include"}
@@ -134,6 +135,10 @@ func c13Gen(g *kit.Lane) c13Scenario {
 			sc.Instant = "between"
 			sc.K = 1 + g.Choose(5)
 		}
+	}
+	if sc.Instant == "pre" && g.Choose(2) == 0 {
+		// no loop at all: one built-in that would act at once. Nothing of it may run under a context that is already done
+		sc.Single, sc.Wrappers, sc.Finite = true, nil, true
 	}
 	return sc
 }
@@ -245,13 +250,17 @@ term_expansion(probe_in, probe_out).
 			goal = "(" + goal + " ; fail)"
 		}
 	}
+	if sc.Single {
+		goal = []string{"assertz(pre_ran)", "atom_length(abc, _)", "X = 1", "set_prolog_flag(unknown, fail)", "op(200, xfx, pre_ran)"}[sc.Big%5]
+	}
 	sc.Goal = goal
 	sc.Program = prog
 	switch sc.Entry {
 	case "exec-directive":
 		sc.Text = "pa(1).\n:- dynamic(dz/1).\ndz(new).\n:- " + goal + ".\npb(1).\n"
 	case "exec-init":
-		sc.Text = "pa(1).\n:- dynamic(dz/1).\ndz(new).\n:- initialization((" + goal + ")).\npb(1).\n"
+		// a second initialization goal is queued behind the one that loops: it runs iff the first one ends, never later
+		sc.Text = "pa(1).\n:- dynamic(dz/1).\ndz(new).\n:- initialization((" + goal + ")).\n:- initialization(late_init).\npb(1).\n"
 	case "exec-consult", "query-consult", "exec-include", "exec-ensure-loaded", "exec-consult-list", "exec-nested-include":
 		sc.Text = "pa(1).\n:- dynamic(dz/1).\ndz(new).\n:- " + goal + ".\npb(1).\n"
 	case "exec-termexp", "query-expand-term":
@@ -320,6 +329,11 @@ func (c13) Exec(r *kit.Run) {
 	interp.Register1(engine.NewAtom("cnt"), func(vm *engine.VM, i engine.Term, k engine.Cont, env *engine.Env) *engine.Promise {
 		return engine.Unify(vm, i, engine.Integer(ticks), k, env)
 	})
+	lateInits := 0
+	interp.Register0(engine.NewAtom("late_init"), func(_ *engine.VM, k engine.Cont, env *engine.Env) *engine.Promise {
+		lateInits++
+		return k(env)
+	})
 	interp.Register0(engine.NewAtom("done"), func(_ *engine.VM, k engine.Cont, env *engine.Env) *engine.Promise {
 		dones++
 		return k(env)
@@ -346,6 +360,7 @@ func (c13) Exec(r *kit.Run) {
 		<-done
 	}
 	answersBefore := 0
+	leftBehind := "" // a goroutine running engine code that the (synchronous) ExecContext started and did not end
 	switch sc.Entry {
 	case "query-first", "query-kth", "query-consult", "query-expand-term":
 		q := sc.Goal
@@ -403,8 +418,10 @@ func (c13) Exec(r *kit.Run) {
 		})
 	case "exec-directive", "exec-init", "exec-termexp":
 		inGoroutine(func() {
+			before := kit.EngineGoroutines()
 			callErr = interp.ExecContext(ctx, sc.Text)
 			success = callErr == nil
+			leftBehind = c13LeftBehind(before)
 		})
 	case "exec-consult", "exec-include", "exec-ensure-loaded", "exec-consult-list", "exec-nested-include":
 		fsys.Files["f.pl"] = []byte(sc.Text)
@@ -412,8 +429,10 @@ func (c13) Exec(r *kit.Run) {
 		text := map[string]string{"exec-consult": ":- consult(f).", "exec-include": "px(1).\n:- include(f).\npy(2).\n", "exec-ensure-loaded": ":- ensure_loaded(f).",
 			"exec-consult-list": ":- [f].", "exec-nested-include": ":- ensure_loaded(outer)."}[sc.Entry]
 		inGoroutine(func() {
+			before := kit.EngineGoroutines()
 			callErr = interp.ExecContext(ctx, text)
 			success = callErr == nil
+			leftBehind = c13LeftBehind(before)
 		})
 	}
 	r.Steps(ctx.Polls())
@@ -433,6 +452,10 @@ func (c13) Exec(r *kit.Run) {
 		r.Out.Inconclusive = "not_fired"
 	}
 	if r.Failed() {
+		return
+	}
+	if leftBehind != "" {
+		r.Fail("late-cancel", "still-running-after-return:"+sc.Entry, "ExecContext returned %s but a goroutine it started is still executing the text: %s", c13Err(callErr), leftBehind)
 		return
 	}
 
@@ -455,7 +478,11 @@ func (c13) Exec(r *kit.Run) {
 		r.Out.NonTrivial = true
 	case callErr == nil && success:
 		// fired, yet the call reports completion: legal only if the work really was finished
-		if !sc.Finite || ticks < sc.Big {
+		if sc.Single && strings.HasPrefix(sc.Entry, "query") {
+			r.Fail("wrong-error", "cancel-reported-as-success:single-builtin:"+sc.Entry, "the context was done before the call, yet %s was run and answered (Err()=nil) instead of the context's error", sc.Goal)
+			return
+		}
+		if !sc.Single && (!sc.Finite || ticks < sc.Big) {
 			if sc.Entry == "query-kth" {
 				// an answer (or exhaustion) instead of the context's error
 				r.Fail("wrong-error", "cancel-reported-as-exhaustion:"+sc.Entry, "context fired at poll %d but the iterator ended without the context's error (Err()=nil). goal: %s", ctx.PollsAtFire(), sc.Goal)
@@ -476,6 +503,31 @@ func (c13) Exec(r *kit.Run) {
 
 	// (3) usable afterwards; effects are a gap-free prefix
 	c13Probes(r, interp, out, &sc, ticks, dones, fsys, isCtx)
+	if r.Failed() || sc.Entry != "exec-init" {
+		return
+	}
+	// an initialization goal queued behind the one that was interrupted runs neither then nor as part of a later load
+	if err := interp.Exec("zz_after(1).\n"); err != nil {
+		r.Fail("unusable-after-cancel", "later-load-fails:exec-init", "a plain Exec after the cancelled load returned %s", kit.CanonErr(err))
+		return
+	}
+	interrupted := isCtx && !sc.Single && (!sc.Finite || ticks < sc.Big)
+	if interrupted && lateInits != 0 {
+		r.Fail("unusable-after-cancel", "stale-initialization-goal-ran", "the load was cancelled inside its first initialization goal, yet the goal queued behind it ran %d time(s) (during the cancelled call or during a later, unrelated Exec)", lateInits)
+		return
+	}
+	if lateInits > 1 {
+		r.Fail("unusable-after-cancel", "initialization-goal-ran-twice", "the second initialization goal of the text ran %d times", lateInits)
+	}
+}
+
+func c13LeftBehind(before map[string]string) string {
+	for id, st := range kit.EngineGoroutines() {
+		if _, ok := before[id]; !ok {
+			return st
+		}
+	}
+	return ""
 }
 
 func c13Big(sc *c13Scenario) string {
